@@ -650,6 +650,8 @@ class Executor(object):
             if m is not None:
                 return [(st, "ok", m)]
             if isinstance(v, VList):
+                if hasattr(list, attr):
+                    raise Unsupported("list.%s is not modelled" % attr)      # a gap of the model, not an error of the code
                 return self.raise_(st, "AttributeError", VT(tm.S("'list' object has no attribute '%s'" % attr)))
         raise Unsupported("attribute %s of %r" % (attr, v))
 
@@ -1498,6 +1500,10 @@ class Executor(object):
         state the loop modifies);  ctx carries the loop index term (for-loops), the pre-loop state, ghost.
         index = dict(var=name|None, lo=T, hi=T, elem=callable(ex, st, k)->Val)
         """
+        if hasattr(spec, "accepts") and not spec.accepts(node):
+            # an invariant states facts about one particular loop; applied to a loop of another shape (a `while` rewritten
+            # as a bounded `for`, another iterable) it would be too weak or meaningless and produce spurious counter-models
+            raise Unsupported("loop %s does not have the shape its invariant was written for" % ordinal)
         tag = "%s::loop%d" % (self.root[1] if self.root else fr.qual, ordinal)
         ctx = dict(pre=st, index=index, k=index["lo"] if index else None, ordinal=ordinal)
         # initiation
